@@ -53,6 +53,13 @@ Theorem c20_eos_flagged :
 Proof. exact eos_flagged_lemma. Qed.
 Print Assumptions c20_eos_flagged.
 
+(** the literals the two theorems above are stated over, as read from the current source: EOS = byte 0 bit 7 (FN bit 15),
+    cost limit 70, noise-blanker limit 80, 2 x 320 bytes per frame from a 160-sample buffer, codec2 blocks at +2 and +10 *)
+Theorem c20_audio_constants : da_eos_idx = 0 /\ da_eos_mask = 128%N /\ da_eos_cost = 70%Z /\ da_blank_cost = 80%Z /\
+  da_write_bytes = 320 /\ da_writes_per_frame = 2 /\ da_buf_samples = 160 /\ da_off1 = 2 /\ da_off2 = 10.
+Proof. exact eos_constants. Qed.
+Print Assumptions c20_audio_constants.
+
 (** non-vacuity *)
 Definition ex_src : list N := str "W1AW".
 Definition ex_dst : option (list N) := Some (str "N0CALL-9").
